@@ -75,6 +75,7 @@ def run(ctx):
     ctx.ob("P2.DELETE/COMPACT", "update_cell_value_shrink", "frag_bytes" in su, "accounts the freed bytes in frag_bytes" if "frag_bytes" in su else
            "update_cell_value_shrink frees bytes without accounting them", u.loc())
     leaf_chain_splice(ctx)
+    dup_check_before_split(ctx)
     prefix_equal_needs_full_compare(ctx)
     init_only_for_new_pages(ctx)
 
@@ -135,7 +136,22 @@ def leaf_chain_splice(ctx):
     ok_paths = False
     esc = []
     if ok_shape:
-        o1, e1, _ = must_pass(f, lambda c: c in from_old, [])
+        # a leaf without a successor (old next == 0) needs no store of it when the new leaf is created by init(), which zeroes the
+        # link: the obligation "new.next := old successor" is decided under the assumption that a successor exists
+        from paths import Assume, const_value
+        getd = {g.dest[0] for g in gets if g.dest is not None}
+        inits = [c for c in f.calls if c.name.endswith("LeafNodeMut::<'a>::init")]
+
+        def is_no_successor_test(fn, kind, payload):
+            if kind != "rvalue" or payload[0] != "bin" or payload[1] != "Eq":
+                return False
+            for x, k in ((payload[2], payload[3]), (payload[3], payload[2])):
+                q = operand_place(x)
+                if q is not None and const_value(fn, k) == 0 and (dmlrules._deps(fn, q[0]) & getd):
+                    return True
+            return False
+        assume = [Assume("the old leaf has a successor", is_no_successor_test, False)] if inits else []
+        o1, e1, _ = must_pass(f, lambda c: c in from_old, assume)
         o2, e2, _ = must_pass(f, lambda c: c in to_new, [])
         ok_paths = o1 and o2
         esc = e1 or e2
@@ -143,6 +159,36 @@ def leaf_chain_splice(ctx):
            "old.next := new page and new.next := old successor on every success path" if ok_shape and ok_paths else
            ("split_leaf does not splice the new leaf into the leaf chain on every success path (%d store(s) of the old successor, %d store(s) of "
             "the new page%s): cursor scans lose or skip leaves" % (len(from_old), len(to_new), "; " + describe_path(f, esc[0]) if esc else "")), f.loc())
+
+
+def dup_check_before_split(ctx):
+    """P8 DUP-CHECK-BEFORE-SPLIT: a full leaf is split by re-laying out old cells + the new one; the only test that the new key
+    is not already present is the comparison with its neighbours in the merged key list.  Every InsertResult::Split built by
+    split_leaf is dominated by the guard of that comparison (the branch that decides whether a left neighbour exists and leads to
+    the byte-slice equality): a split that returns before it stores a duplicate key and a separator equal to it."""
+    m = ctx.m
+    fs = [f for f in m.fns.values() if f.kind != "closure" and f.id.startswith("btree::tree::BTree::") and f.id.endswith("::split_leaf")]
+    if len(fs) != 1:
+        raise CheckError("split_leaf: %d candidates" % len(fs))
+    f = fs[0]
+    eqs = [c for c in f.calls if c.name.endswith("PartialEq for &[u8]>::eq") or c.name.endswith("PartialEq<[u8]> for [u8]>::eq")
+           or (c.name.rsplit("::", 1)[-1] == "eq" and "[u8]" in c.full)]
+    splits = [(bb, st[3]) for bb, b in enumerate(f.blocks) for st in b["s"]
+              if st[0] == "=" and st[2][0] == "agg" and st[2][1] == "adt" and st[2][2].endswith("InsertResult") and st[2][3] == "Split"]
+    if not eqs or not splits:
+        raise CheckError("split_leaf: duplicate comparison (%d) / Split result (%d) not found" % (len(eqs), len(splits)))
+    first = min(eqs, key=lambda c: c.line)
+    guard = None
+    for d in sorted(f.dominators().get(first.bb, ()), key=lambda b: -len(f.dominators().get(b, ()))):
+        if d != first.bb and f.blocks[d]["t"][0] == "switch":
+            guard = d
+            break
+    if guard is None:
+        raise CheckError("split_leaf: guard of the duplicate comparison not found")
+    bad = [(bb, l) for bb, l in splits if not f.dominates(guard, bb)]
+    ctx.ob("P8.DUP-CHECK-BEFORE-SPLIT", "split_leaf", not bad, "every Split result is built behind the neighbour-equality test (L%s)" % first.line if not bad else
+           "split_leaf builds a Split result (L%s) on a path that never reaches the duplicate-key test (L%s): inserting a key that is already "
+           "the leaf's maximum stores it twice and publishes a separator equal to it" % (bad[0][1], first.line), "%s:%s" % (f.file, bad[0][1] if bad else first.line))
 
 
 def prefix_equal_needs_full_compare(ctx):
